@@ -42,7 +42,7 @@ TraceInit ==
     /\ pc = [s \in Station |-> IF s = master THEN "recv" ELSE "turn"]
     /\ blk = [s \in Station |-> <<>>] /\ toSend = [s \in Station |-> <<>>] /\ written = [s \in Station |-> {}]
     /\ rejNow = [s \in Station |-> {}] /\ deferred = [s \in Station |-> {}] /\ toRecv = [s \in Station |-> <<>>]
-    /\ noMsgs = [s \in Station |-> FALSE] /\ wire = [s \in Station |-> <<>>] /\ link = "up"
+    /\ noMsgs = [s \in Station |-> FALSE] /\ wire = [s \in Station |-> <<>>] /\ link = "up" /\ cms = "none"
 
 Last(q) == q[Len(q)]
 
@@ -78,6 +78,7 @@ TSilent ==
           \/ RecvFS(s) \/ Confirm(s) \/ ReportDone(s) \/ RecvFF(s) \/ RecvFQ(s) \/ Unexpected(s) \/ ReadEOF(s) \/ WriteFails(s)
           \/ (rejNow[s] = {} /\ ReportRejected(s))                \* nothing was rejected: no handler call to see
           \/ (link = "cut" /\ StationStep(s))
+          \/ (pc[Peer(s)] \in Terminal /\ NoOutbound(s))         \* an FF / FQ written to a peer that has gone: its error is ignored
     /\ Silent
 
 TraceNext == TSession \/ TFF \/ TFQ \/ TBlock \/ TFS \/ TDef \/ TFrame \/ TRej \/ TSent \/ TStore \/ TRet \/ TCut \/ TErr \/ TSilent
